@@ -667,6 +667,18 @@ class IndexVal:
             raise Unsupported("Index.to_frame of a flat index")
         return _LevelsFrame(self.owner)
 
+    def to_series(self, index=None, name=None):
+        """Index.to_series(): the labels as values (and as labels).  Modelled for an index over a series' rows by that series' row
+        space: the contracts that use it speak about rows, not about the values."""
+        if index is not None:
+            raise Unsupported("Index.to_series(index=...)")
+        o = self.owner
+        if not isinstance(o, SeriesVal):
+            raise Unsupported("Index.to_series of a frame's index")
+        r = o.derive()
+        r.from_index = True
+        return r
+
     def pyvc_getitem(self, I, k):
         """index[mask]: the labels of the selected rows (a selection of positions whose labels are what matters downstream)"""
         if isinstance(k, SeriesVal):
